@@ -24,15 +24,22 @@ class Sites:
 
     def __init__(self):
         self.cache = {}
+        self.bail = {}
 
     def _load(self, fname):
         if fname in self.cache:
             return self.cache[fname]
         table = {}
+        bail = set()
         p = os.path.join(SRC, fname)
         if os.path.exists(p):
             cur, k = "?", 0
-            for i, line in enumerate(open(p, errors="replace").read().split("\n"), 1):
+            lines = open(p, errors="replace").read().split("\n")
+            for i, line in enumerate(lines, 1):
+                # a try whose failure returns the documented lock error ("bail try")
+                if re.search(r"\.try_(read|write)", line.split("//")[0]) and "ParentElementLocked" in " ".join(lines[i - 1:i + 2]):
+                    bail.add(i)
+            for i, line in enumerate(lines, 1):
                 code = line.split("//")[0]
                 m = FN_RE.match(code)
                 if m:
@@ -42,6 +49,7 @@ class Sites:
                     table[i] = "%s::%s#%d" % (fname, cur, k + 1)
                     k += n
         self.cache[fname] = table
+        self.bail[fname] = bail
         return table
 
     def snapshot(self):
@@ -50,6 +58,11 @@ class Sites:
             if f.endswith(".rs"):
                 self._load(f)
         return self
+
+    def is_bail(self, site):
+        f, line, kind = site.split(":")
+        self._load(f)
+        return int(line) in self.bail.get(f, ())
 
     def name(self, site):
         # site = file:line:kind
@@ -87,35 +100,43 @@ def parse_trace(text):
     return out
 
 
-def coq_traces(inst):
-    """(t, t2, rank table) as Gallina text; see Conc/Eval.v verdict"""
-    t, t2 = [], []
+def coq_traces(inst, sites):
+    """(t, t2, t3, rank table) as Gallina text; see Conc/Eval.v verdict / validate_before_mutate"""
+    t, t2, t3 = [], [], []
+    tracked = lambda l: "true" if inst.locks.get(l, ("", 0, ""))[2].endswith("@before") else "false"
     for kind, mode, lock, cls, site, ak in inst.events:
         m = "Rd" if mode == "R" else "Wr"
+        bail = "true" if (ak != "B" and sites.is_bail(site)) else "false"
         if kind in ("Acq", "TryAcq"):
             e = "Acq %s %s %d" % ("true" if ak == "B" else "false", m, lock)
             t.append(e)
             t2.append(e)
+            t3.append("(%s, %s)" % (e, bail))
         elif kind == "TryFail":
             t.append("Acq false %s %d" % (m, lock))
             t.append("Rel %d" % lock)
+            t3.append("(Acq false %s %d, %s)" % (m, lock, bail))
+            t3.append("(Rel %d, false)" % lock)
         elif kind == "SelfDeadlock":
             # the blocking acquisition that can never be granted (the shim panics instead of hanging)
             t.append("Acq true %s %d" % (m, lock))
             t.append("Rel %d" % lock)
+            t3.append("(Acq true %s %d, false)" % (m, lock))
+            t3.append("(Rel %d, false)" % lock)
         elif kind == "Rel":
             t.append("Rel %d" % lock)
             t2.append("Rel %d" % lock)
+            t3.append("(Rel %d, %s)" % (lock, tracked(lock)))
     tbl = "; ".join("(%d, %d)" % (k, v[1]) for k, v in sorted(inst.locks.items()))
-    return "[" + "; ".join(t) + "]", "[" + "; ".join(t2) + "]", "[" + tbl + "]"
+    return "[" + "; ".join(t) + "]", "[" + "; ".join(t2) + "]", "[" + "; ".join(t3) + "]", "[" + tbl + "]"
 
 
 COQ_HDR = ("From Coq Require Import List NArith.\nFrom AV Require Import Conc.RwLock Conc.Deadlock Conc.SelfConflict Conc.TwoPhase Conc.Eval.\n"
            "Import ListNotations.\nOpen Scope N_scope.\nSet Printing Depth 1000000.\nSet Printing Width 200.\n")
 
 
-def coq_verdicts(insts, tag):
-    """evaluates Conc/Eval.v verdict_n on every instance inside Coq. returns list of [bal,self,order,2ph,wl,dbal] or (None, err)"""
+def coq_verdicts(insts, tag, sites):
+    """evaluates Conc/Eval.v verdict7 on every instance inside Coq. returns list of [bal,self,order,2ph,wl,dbal,vbm] or (None, err)"""
     import concurrent.futures as cf
     nsh = 8
     shards = [list(range(k, len(insts), nsh)) for k in range(nsh)]
@@ -125,8 +146,8 @@ def coq_verdicts(insts, tag):
             return {}
         t = COQ_HDR
         for i in idxs:
-            a, b, tbl = coq_traces(insts[i])
-            t += 'Goal True. idtac "@@I %d". Abort.\nEval vm_compute in verdict_n %s %s %s.\n' % (i, tbl, a, b)
+            a, b, c, tbl = coq_traces(insts[i], sites)
+            t += 'Goal True. idtac "@@I %d". Abort.\nEval vm_compute in verdict7 %s %s %s %s.\n' % (i, tbl, a, b, c)
         rc, out, dt = lib.coq_eval("locks_%s_%d" % (tag, k), t, timeout=900)
         if rc != 0:
             return {"error": out[-800:]}
@@ -159,10 +180,15 @@ def diagnose(inst, sites):
     held = []   # (lock, mode, cls, site)
     self_edges, order_edges = set(), set()
     released, two_phase, balanced = False, True, True
+    wdone, vbm, vbm_sites = False, True, set()
     rank = lambda l: inst.locks.get(l, ("", 0, ""))[1]
+    tracked = lambda l: inst.locks.get(l, ("", 0, ""))[2].endswith("@before")
     for kind, mode, lock, cls, site, ak in inst.events:
         if kind in ("Acq", "TryAcq", "TryFail", "SelfDeadlock"):
             sname = sites.name(site)
+            if kind != "SelfDeadlock" and ak != "B" and sites.is_bail(site) and wdone:
+                vbm = False
+                vbm_sites.add("%s | bail try %s after a completed write section (%s)" % (inst.cls, sname, wdone))
             for (hl, hm, hc, hs) in held:
                 if hl == lock and (mode == "W" or hm == "W"):
                     self_edges.add("%s | %s | %s | %s:%s -> %s:%s | self | %s" % (inst.cls, sname, ak, hc, hm, cls, mode, sites.name(hs)))
@@ -180,13 +206,15 @@ def diagnose(inst, sites):
             released = True
             for i in range(len(held) - 1, -1, -1):
                 if held[i][0] == lock:
+                    if held[i][1] == "W" and tracked(lock) and not wdone:
+                        wdone = "%s:%s" % (held[i][2], sites.name(held[i][3]))
                     del held[i]
                     break
             else:
                 balanced = False
     if held:
         balanced = False
-    return {"self_edges": self_edges, "order_edges": order_edges, "two_phase": two_phase, "balanced": balanced}
+    return {"self_edges": self_edges, "order_edges": order_edges, "two_phase": two_phase, "balanced": balanced, "vbm": vbm, "vbm_sites": vbm_sites}
 
 
 # ----------------------------------------------------------------------------- running the harness
@@ -205,23 +233,28 @@ def analyse(ctx, avh, tier, seed, tag):
     insts = get_traces(ctx, avh, tier, seed)
     if not insts:
         return None
-    verd, err = coq_verdicts(insts, tag)
-    ctx.oblige("coq:criteria evaluated by vm_compute on %d logged traces (Conc/Eval.v verdict_n)" % len(insts), verd is not None, err)
-    if verd is None:
-        return None
     sites = Sites()
     sites.snapshot()
+    verd, err = coq_verdicts(insts, tag, sites)
+    ctx.oblige("coq:criteria evaluated by vm_compute on %d logged traces (Conc/Eval.v verdict7)" % len(insts), verd is not None, err)
+    if verd is None:
+        return None
     diags = [diagnose(i, sites) for i in insts]
     # the untrusted diagnosis must agree with the kernel-evaluated criteria (otherwise the edge names would be meaningless)
     dis = []
     for i, v, d in zip(insts, verd, diags):
-        mine = [int(d["balanced"]), int(not d["self_edges"]), int(not d["order_edges"]), int(d["two_phase"])]
-        if mine != v[:4]:
-            dis.append("%s coq=%s diagnosis=%s" % (i.key, v[:4], mine))
+        mine = [int(d["balanced"]), int(not d["self_edges"]), int(not d["order_edges"]), int(d["two_phase"]), int(d["vbm"])]
+        if mine != bv(v):
+            dis.append("%s coq=%s diagnosis=%s" % (i.key, bv(v), mine))
     ctx.oblige("diagnosis:python edge diagnosis agrees with the Coq verdicts on every trace", not dis, "; ".join(dis[:5]))
     global LAST_SITES
     LAST_SITES = sites
     return insts, verd, diags
+
+
+def bv(v):
+    """the part of a Coq verdict that the baseline records: [balanced, self_ok, order_ok, two_phase, validate_before_mutate]"""
+    return v[:4] + [v[6]]
 
 
 def load_baseline():
@@ -232,13 +265,13 @@ def load_baseline():
 
 def make_baseline(insts, verd, diags):
     b = {"comment": "Committed baseline of the lock criteria on the pinned tree (written by `python3 checks/locks_common.py baseline`). "
-                    "instances: per operation instance the result and the Coq verdicts [balanced, self_ok, order_ok, two_phase]; "
+                    "instances: per operation instance the result and the Coq verdicts [balanced, self_ok, order_ok, two_phase, validate_before_mutate]; "
                     "self_edges / order_edges: the violating edges that exist today (each is part of a recorded finding or of the "
                     "documented model->element direction); a NEW edge or an instance that loses a criterion breaks the obligation.",
          "instances": {}, "self_edges": [], "order_edges": []}
     se, oe = set(), set()
     for i, v, d in zip(insts, verd, diags):
-        b["instances"][i.key] = {"result": i.result.split(":")[0] if not i.result.startswith("err") else i.result, "verdict": v[:4]}
+        b["instances"][i.key] = {"result": i.result.split(":")[0] if not i.result.startswith("err") else i.result, "verdict": bv(v)}
         se |= d["self_edges"]
         oe |= d["order_edges"]
     b["self_edges"] = sorted(se)
@@ -254,22 +287,24 @@ def compare(insts, verd, diags, base, which):
     """which: subset of {'self','order','two_phase'}; returns (regressions, notes).
     regressions: list of dicts {kind, instance, detail}"""
     reg, notes = [], []
-    idx = {"balanced": 0, "self": 1, "order": 2, "two_phase": 3}
+    idx = {"balanced": 0, "self": 1, "order": 2, "two_phase": 3, "vbm": 4}
+    verd = [bv(v) for v in verd]
     base_inst = base.get("instances", {})
     base_se, base_oe = set(base.get("self_edges", [])), set(base.get("order_edges", []))
     for i, v, d in zip(insts, verd, diags):
         b = base_inst.get(i.key)
         if b is None:
             notes.append("instance not in the baseline: %s" % i.key)
-            bv = [1, 1, 1, 1]   # a new instance has to meet the criteria or show only known edges
+            bvd = [1, 1, 1, 1, 1]   # a new instance has to meet the criteria or show only known edges
             bres = None
         else:
-            bv, bres = b["verdict"], b["result"]
+            bvd, bres = (b["verdict"] + [1])[:5], b["result"]
         for w in ["balanced"] + sorted(which):
             k = idx[w]
-            if bv[k] == 1 and v[k] == 0 and b is not None:
-                reg.append({"kind": w, "instance": i.key, "detail": "criterion %s held in the baseline and fails now" % w})
-            elif bv[k] == 0 and v[k] == 1:
+            if bvd[k] == 1 and v[k] == 0 and b is not None:
+                reg.append({"kind": w, "instance": i.key, "detail": "criterion %s held in the baseline and fails now%s" %
+                            (w, (": " + "; ".join(sorted(d["vbm_sites"]))) if w == "vbm" else "")})
+            elif bvd[k] == 0 and v[k] == 1:
                 notes.append("improved: %s now satisfies %s" % (i.key, w))
         if "self" in which:
             for e in sorted(d["self_edges"] - base_se):
@@ -446,6 +481,14 @@ QUICK_PAIRS = [
     ("S3", "move_element_here/deep_to_flat", "set_item_name/deep"), ("S3", "create_copied_sub_element/deep", "set_reference_target/deep"),
     ("S3", "path/deep", "set_item_name/deep"), ("S2", "add_to_file/second", "remove_from_file/second"),
     ("S2", "remove_file/second", "serialize/file"), ("S1", "duplicate/model", "set_attribute/ok"),
+    # moves / copies whose destination already has an element of the same name (make_unique_item_name renames) against
+    # operations that hold the SOURCE parent's lock across scheduling points (the move's try on the source parent then fails)
+    ("S1", "move_element_here/clash", "serialize/src_parent"), ("S1", "move_element_here/clash", "sort/element"),
+    ("S1", "move_element_here/clash", "remove_sub_element/referenced"), ("S1", "move_element_here/clash", "create_named_sub_element/ok"),
+    ("S1", "move_element_here/clash", "elements_dfs/src_parent"), ("S1", "move_element_here/clash_referenced", "serialize/element"),
+    ("S1", "move_element_here_at/clash", "remove_sub_element/referenced"), ("S1", "move_element_here_at/clash", "serialize/src_parent"),
+    ("S1", "move_element_here/foreign_clash", "serialize/file"), ("S1", "create_copied_sub_element/clash", "remove_sub_element/referenced"),
+    ("S1", "create_copied_sub_element_at/clash", "sort/element"), ("S1", "move_element_here/local", "remove_sub_element/referenced"),
 ]
 TRIPLES = [
     ("S1", "serialize/element", "set_attribute/ok", "path/named"), ("S1", "set_item_name/referenced", "set_reference_target/ok", "check_references/model"),
@@ -494,11 +537,14 @@ def explore(avh, tuples, k, limit, nrand, seed, tag, nproc=12):
                     kv = dict(x.split("=", 1) for x in line.split()[2:] if "=" in x)
                     cur = {"shape": kv["shape"], "ops": kv["ops"].split("+"), "runs": int(kv["runs"]), "deadlocks": int(kv["deadlocks"]),
                            "nonserial": int(kv["nonserial"]), "timed_out": int(kv["timed_out"]), "distinct_outcomes": int(kv["distinct_outcomes"]),
-                           "serial_outcomes": int(kv["serial_outcomes"]), "dlsig": [], "nonser": []}
+                           "serial_outcomes": int(kv["serial_outcomes"]), "lockfx_runs": int(kv.get("lockfx", 0)), "dlsig": [], "nonser": [], "lockfx": []}
                     recs.append(cur)
                 elif line.startswith("DLSIG") and cur is not None:
                     m = re.match(r"DLSIG shape=\S+ ops=\S+ schedule=(\S*) sig=(.*)$", line)
                     cur["dlsig"].append((m.group(1), m.group(2)))
+                elif line.startswith("LOCKFX") and cur is not None:
+                    m = re.match(r"LOCKFX shape=\S+ ops=\S+ schedule=(\S*) outcome=(.*)$", line)
+                    cur["lockfx"].append((m.group(1), m.group(2)))
                 elif line.startswith("NONSER") and cur is not None:
                     m = re.match(r"NONSER shape=\S+ ops=\S+ schedule=(\S*) outcome=(.*)$", line)
                     cur["nonser"].append((m.group(1), m.group(2)))
@@ -605,7 +651,11 @@ if __name__ == "__main__":
     res = analyse(ctx, avh, "quick", 1, "tool")
     insts, verd, diags = res
     if cmd == "baseline":
-        json.dump(make_baseline(insts, verd, diags), open(BASELINE, "w"), indent=1, sort_keys=True)
+        nb = make_baseline(insts, verd, diags)
+        old = load_baseline() or {}
+        # tuples in which a call gives up with the lock error but has an effect TODAY (found by the thorough exploration; kept by hand)
+        nb["c16_locked_with_effect"] = old.get("c16_locked_with_effect", [])
+        json.dump(nb, open(BASELINE, "w"), indent=1, sort_keys=True)
         print("baseline written: %d instances" % len(insts))
     else:
         se, oe = {}, {}
